@@ -63,7 +63,12 @@ CCD = {
     "HOH": ("NON-POLYMER", []),
     "LIG": ("NON-POLYMER", [("C1", "C2", "DOUB", "Y"), ("C2", "C3", "SING", "Y"), ("C3", "N1", "TRIP", "N"), ("C1", "C4", "QUAD", "N")]),
     "ZN": ("NON-POLYMER", []),
+    # a custom compound appended to a standard dictionary, out of alphabetical order (the documented
+    # set_ccd_path() use case); the dictionary below is deliberately NOT sorted by component name
+    "FOO": ("NON-POLYMER", [("C1", "O1", "DOUB", "N"), ("C1", "C2", "SING", "N"), ("C2", "N1", "TRIP", "N")]),
+    "CYS": ("L-PEPTIDE LINKING", [("N", "CA", "SING", "N"), ("CA", "C", "SING", "N"), ("C", "O", "DOUB", "N"), ("CA", "CB", "SING", "N"), ("CB", "SG", "SING", "N")]),
 }
+CCD_ORDER = list(CCD)        # file order = declaration order (not alphabetical)
 INFO_BOND_TYPES = {("SING", "N"): 1, ("DOUB", "N"): 2, ("TRIP", "N"): 3, ("QUAD", "N"): 4, ("SING", "Y"): 5, ("DOUB", "Y"): 6, ("TRIP", "Y"): 7}
 PEP = ("PEPTIDE LINKING", "L-PEPTIDE LINKING", "D-PEPTIDE LINKING")
 NUC = ("RNA LINKING", "DNA LINKING")
@@ -76,7 +81,7 @@ _state = {"ready": False}
 
 def _fixture_path():
     from common import paths
-    return os.path.join(paths.FIXTURES, "C04", "components.bcif")
+    return os.path.join(paths.FIXTURES, "C04", "components_unsorted.bcif")
 
 
 def _setup():
@@ -88,7 +93,7 @@ def _setup():
     path = _fixture_path()
     if not os.path.exists(path):
         from biotite.structure.io.pdbx.bcif import BinaryCIFBlock, BinaryCIFCategory, BinaryCIFColumn, BinaryCIFFile
-        names = sorted(CCD)
+        names = list(CCD_ORDER)
         cc = BinaryCIFCategory()
         cc["id"] = np.array(names)
         cc["name"] = np.array([n.lower() for n in names])
@@ -97,7 +102,7 @@ def _setup():
         cb = BinaryCIFCategory()
         for k, col in enumerate(["comp_id", "atom_id_1", "atom_id_2", "value_order", "pdbx_aromatic_flag"]):
             cb[col] = np.array([r[k] for r in rows])
-        atoms = sorted({(r[0], a) for r in rows for a in r[1:3]})
+        atoms = [(n, a) for n in names for a in dict.fromkeys(x for b in CCD[n][1] for x in b[:2])]
         ca = BinaryCIFCategory()
         ca["comp_id"] = np.array([a[0] for a in atoms])
         ca["atom_id"] = np.array([a[1] for a in atoms])
@@ -364,6 +369,9 @@ def build_array(spec):
         is_int = all(isinstance(x, int) and not isinstance(x, bool) for x in vals)
         arr.set_annotation(name, np.array(vals, dtype=int if is_int else str))
     coord = np.array([[tok_xyz(t) for t in mdl] for mdl in spec["coords"]], dtype=np.float32).reshape(m, n, 3)
+    if spec.get("layout") == "F":
+        # same values, Fortran-like memory layout: coord[..., k] is one contiguous block
+        coord = np.ascontiguousarray(coord.transpose(2, 1, 0)).transpose(2, 1, 0)
     if spec["stack"]:
         arr.coord = coord
     else:
@@ -391,6 +399,9 @@ def _extra_fields(spec):
 
 # ------------------------------------------------------------------ generator
 _NAMES_ATOM = ["C1", "C2", "C3", "N1", "O1", "O1'", "C2'", "H\"1", "FE", "X*", "CA", "NZ", "OXT", "c1", "Cé"]
+# components whose (res_name, atom_1, atom_2) triples collide when concatenated without a separator
+_COLLIDE_RES = {"XY": (["Z1", "Q", "M"], [("Z1", "Q")]), "X": (["YZ1", "Q", "M"], [("YZ1", "Q"), ("Q", "M")]),
+                "LI": (["GC", "11H", "C"], [("GC", "11H")]), "LIGC": (["1", "1H", "C"], [("1", "1H"), ("C", "1")])}
 _CUSTOM_RES = ["LG1", "X'1", "Q\"2", "hem", "L-7", "ÅB", "3P*", "UNL", "ala"]
 _CHAINS = ["A", "B", "C", "AA", "a", "B'", "C\"", "1", "x-y", "É"]
 _ELEMENTS = ["C", "N", "O", "S", "FE", "ZN", "H", "SE", "P", "X"]
@@ -435,6 +446,18 @@ def _template(rng, name, templates):
         if not atoms:
             atoms = ["O"] if name == "HOH" else [name]
         rng.shuffle(atoms)
+    elif name in _COLLIDE_RES:
+        atoms, bonds = [list(x) for x in _COLLIDE_RES[name]]
+        bonds = [(a, b, rng.choice([1, 2, 3, 5, 9])) for a, b in bonds]
+    elif rng.random() < 0.3:
+        # atom names a, a+x, x+b, b: the bonds a-(x+b) and (a+x)-b have the same concatenated names
+        a, x, b = rng.choice(["C", "N1", "O"]), rng.choice(["1", "A", "'", "1H"]), rng.choice(["H", "2", "X"])
+        atoms = [a, a + x, x + b, b] + rng.sample(["Q7", "Q8"], rng.randint(0, 2))
+        rng.shuffle(atoms)
+        bonds = [(a, x + b, rng.choice([1, 2, 5])), (a + x, b, rng.choice([2, 3, 9]))]
+        if rng.random() < 0.5:
+            bonds.append((a, b, 1))
+        rng.shuffle(bonds)
     else:
         atoms = rng.sample(_NAMES_ATOM, rng.randint(1, 5))
         bonds = []
@@ -496,18 +519,18 @@ def gen_spec(rng, flavour="valid"):
         used = set()
         for _ in range(rng.randint(1, 4)):
             if kind == "pep":
-                rn = rng.choice(["ALA", "GLY", "TYR", "MSE", "DAL", "ALA", "GLY"])
+                rn = rng.choice(["ALA", "GLY", "TYR", "MSE", "DAL", "ALA", "GLY", "CYS"])
             elif kind == "nuc":
                 rn = rng.choice(["A", "DA", "U"])
             else:
-                rn = rng.choice(_CUSTOM_RES + ["HOH", "LIG", "ZN", "ALA", "A"])
+                rn = rng.choice(_CUSTOM_RES + ["HOH", "LIG", "ZN", "ALA", "A", "FOO", "FOO", "XY", "X", "LI", "LIGC"])
             names, _b = _template(rng, rn, templates)
             ins = rng.choice(_INS) if rng.random() < 0.15 else ""
             # residues must be uniquely identifiable: (chain, res_id, ins_code) is used once
             while (rid, ins) in used:
                 ins = rng.choice([x for x in _INS + ["D", "E", "F", "G"] if (rid, x) not in used])
             used.add((rid, ins))
-            het = rn not in ("ALA", "GLY", "TYR", "A", "DA", "U") or rng.random() < 0.1
+            het = rn not in ("ALA", "GLY", "TYR", "CYS", "A", "DA", "U") or rng.random() < 0.1
             present = [n for n in names if rng.random() < 0.9] or names[:1]
             for an in present:
                 atoms.append([ch, rid, ins, rn, het, an, rng.choice(_ELEMENTS), rng.randint(-2, 2) if rng.random() < 0.4 else 0, 0])
@@ -620,7 +643,7 @@ def gen_spec(rng, flavour="valid"):
             box = [mid_len, long_len, short_len, 90.0 + delta, 90.0, 90.0]
         else:                  # b short, a long: gamma
             box = [long_len, short_len, mid_len, 90.0, rng.choice([90.0, 95.0]), 90.0 + delta]
-    spec = {"atoms": atoms, "stack": stack, "coords": coords, "box": box, "bonds": bonds,
+    spec = {"atoms": atoms, "stack": stack, "coords": coords, "box": box, "bonds": bonds, "layout": rng.choice(["C", "C", "F"]),
             "has_charge": rng.random() < 0.5, "has_atom_id": rng.random() < 0.4,
             "b_factor": [rng.randint(0, 99999) / 100.0 for _ in range(n)] if rng.random() < 0.4 else None,
             "occupancy": [rng.choice([1.0, 0.5, 0.25, 0.7, 0.33]) for _ in range(n)] if rng.random() < 0.4 else None,
@@ -704,6 +727,7 @@ def gen_single_atom(rng):
     atom = [w(), rng.randint(-9, 99), rng.choice(["", "", w()]), w(), rng.random() < 0.5, w(), w(), rng.randint(-1, 1), 7]
     stack = rng.random() < 0.3
     spec = {"atoms": [atom], "stack": stack, "coords": [[xyz_tok([_rand_f32(rng, True) for _ in range(3)])]], "box": None,
+            "layout": rng.choice(["C", "F"]),
             "bonds": None, "has_charge": rng.random() < 0.5, "has_atom_id": rng.random() < 0.5,
             "b_factor": [12.5] if rng.random() < 0.5 else None, "occupancy": None,
             "extra": {"my_field": [w()]} if rng.random() < 0.7 else {}}
@@ -722,6 +746,9 @@ def _struct_case(rng, spec, kind="struct", expect=None):
         ops.append(f"read {k} first {rb} {c} {i}")
     if rng.random() < 0.3:
         ops.append(f"read 1 first {rb} {1 - c} {1 - i}")
+    if ccd_fallback_ok(spec):
+        # no chem_comp_bond in the file: intra-residue bonds come from the component dictionary
+        ops += ["write 0", "show_ccb", f"read 1 first 1 {c} {i}", f"read all first 1 {c} {i}"]
     case = {"kind": kind, "ops": ops, "spec": spec}
     if expect:
         case["expect"] = expect
@@ -1024,6 +1051,19 @@ def corpus():
     down = [a[:1] + [{1: 20, 2: 19, 3: 5, 4: 5, 5: 5, 6: 4}[a[1]], {4: "A", 5: "B"}.get(a[1], "")] + a[3:] for a in pep]
     out.append(_struct_case(rng, _mini(down, bb), "struct"))
     out.append(large_case())
+    # atom / residue names whose concatenation collides: C-11H vs C1-1H in one ligand; XY:Z1-Q vs X:YZ1-Q
+    lig2 = [["A", 1, "", "LG1", True, an, "C"] for an in ("C", "C1", "1H", "11H")]
+    out.append(_struct_case(rng, _mini(lig2, [[0, 3, 1], [1, 2, 2]]), "struct"))
+    cross = [["A", 1, "", "XY", True, "Z1", "C"], ["A", 1, "", "XY", True, "Q", "C"],
+             ["A", 2, "", "X", True, "YZ1", "C"], ["A", 2, "", "X", True, "Q", "C"]]
+    out.append(_struct_case(rng, _mini(cross, [[0, 1, 1], [2, 3, 3]]), "struct"))
+    # dictionary compound appended out of alphabetical order, written without chem_comp_bond (dictionary fallback)
+    foo = [["A", 1, "", "FOO", True, an, an[0]] for an in ("C1", "O1", "C2", "N1")] + \
+          [["A", 2, "", "CYS", False, an, an[0]] for an in ("N", "CA", "C", "O", "CB", "SG")]
+    out.append(_struct_case(rng, _mini(foo, [[0, 1, 2], [0, 2, 1], [2, 3, 3], [4, 5, 1], [5, 6, 1], [6, 7, 2], [5, 8, 1], [8, 9, 1]]), "struct"))
+    # Fortran-ordered coordinates / a single atom (set_structure must copy them)
+    out.append(_struct_case(rng, _mini(lig2, None, layout="F"), "struct"))
+    out.append(_struct_case(rng, _mini(lig2[:1], None, layout="C"), "struct"))
     # the known limits of struct_conn
     out.append(_struct_case(rng, _mini(pep, bb + [[i(0, "O"), i(3, "N"), 9]]), "struct-limit"))
     return out
@@ -1313,16 +1353,97 @@ def run_impl(case):
 FORMATS = ("cif", "bcif", "cbcif")
 
 
-def _roundtrip(arr, fmt, spec, fields=None, **read_kw):
+class Aliased(Exception):
+    pass
+
+
+def _alias_check(f, arr, fmt):
+    """set_structure must have COPIED what it stores: the caller moves / edits the structure in place after
+    set_structure() and before file.write(); no column of the file may follow.  The structure is restored."""
+    import numpy as np
+    block = f.block
+
+    def snapshot():
+        snap = {}
+        for cname, cat in block.items():
+            for col, column in cat.items():
+                snap[(cname, col)] = np.array(column.data.array, copy=True)
+        return snap
+    before = snapshot()
+    backup = {"coord": arr.coord.copy(), "box": None if arr.box is None else arr.box.copy()}
+    arr.coord[...] = arr.coord * np.float32(-3.0) + np.float32(11.5)
+    if arr.box is not None:
+        arr.box[...] = arr.box * 2
+    cats = arr.get_annotation_categories()
+    for c in cats:
+        a = arr.get_annotation(c)
+        backup[c] = a.copy()
+        if a.dtype.kind in "iu":
+            a[...] = a + 17
+        elif a.dtype.kind == "f":
+            a[...] = a * 2 + 1
+        elif a.dtype.kind == "b":
+            a[...] = ~a
+        elif a.dtype.kind == "U" and a.dtype.itemsize >= 4:
+            a[...] = "~"
+    after = snapshot()
+    arr.coord[...] = backup["coord"]
+    if arr.box is not None:
+        arr.box[...] = backup["box"]
+    for c in cats:
+        arr.get_annotation(c)[...] = backup[c]
+    for k in before:
+        x, y = before[k], after[k]
+        same = x.shape == y.shape and (np.array_equal(x, y) if x.dtype.kind != "f" else np.array_equal(x, y, equal_nan=True))
+        if not same:
+            raise Aliased(f"{k[0]}.{k[1]}")
+
+
+def ccd_fallback_ok(spec):
+    """True if every residue is a dictionary component whose intra-residue bonds are exactly the bonds the
+    dictionary implies for the atoms present: then the structure may be written WITHOUT chem_comp_bond
+    (include_bonds=False) and get_structure(include_bonds=True) must restore the same bonds from the dictionary."""
+    if spec.get("bonds") is None:
+        return False
+    atoms = spec["atoms"]
+    st = res_starts(atoms)
+    have = {}
+    for i, j, t in spec["bonds"]:
+        have[(min(i, j), max(i, j))] = t
+    intra = {}
+    for r in range(len(st) - 1):
+        rn = atoms[st[r]][3]
+        if rn not in CCD:
+            return False
+        pos = {}
+        for k in range(st[r], st[r + 1]):
+            if atoms[k][5] in pos:
+                return False
+            pos[atoms[k][5]] = k
+        for a, b, o, f in CCD[rn][1]:
+            if a in pos and b in pos:
+                intra[(min(pos[a], pos[b]), max(pos[a], pos[b]))] = INFO_BOND_TYPES[(o, f)]
+    resof = {}
+    for r in range(len(st) - 1):
+        for k in range(st[r], st[r + 1]):
+            resof[k] = r
+    mine = {k: t for k, t in have.items() if resof[k[0]] == resof[k[1]] and t != 8}
+    return mine == intra and bool(intra)
+
+
+def _roundtrip(arr, fmt, spec, fields=None, write_incl=None, **read_kw):
     """`fields`: the caller's extra_fields list object, deliberately the SAME object for every read of a case."""
     from biotite.structure.io import pdbx
     incl = arr.bonds is not None
+    if write_incl is not None:
+        return _roundtrip_ccd(arr, fmt, spec, fields, **read_kw)
     extra = sorted(spec.get("extra") or {})
     if fields is None:
         fields = _extra_fields(spec)
     if fmt == "cif":
         f = pdbx.CIFFile()
         pdbx.set_structure(f, arr, include_bonds=incl, extra_fields=extra)
+        _alias_check(f, arr, fmt)
         buf = io.StringIO()
         f.write(buf)
         buf.seek(0)
@@ -1330,6 +1451,7 @@ def _roundtrip(arr, fmt, spec, fields=None, **read_kw):
     else:
         f = pdbx.BinaryCIFFile()
         pdbx.set_structure(f, arr, include_bonds=incl, extra_fields=extra)
+        _alias_check(f, arr, fmt)
         if fmt == "cbcif":
             f = pdbx.compress(f)
         buf = io.BytesIO()
@@ -1337,6 +1459,21 @@ def _roundtrip(arr, fmt, spec, fields=None, **read_kw):
         buf.seek(0)
         g = pdbx.BinaryCIFFile.read(buf)
     return pdbx.get_structure(g, extra_fields=fields, include_bonds=incl, **read_kw)
+
+
+def _roundtrip_ccd(arr, fmt, spec, fields, **read_kw):
+    """written with include_bonds=False (no chem_comp_bond), read with include_bonds=True (dictionary)"""
+    from biotite.structure.io import pdbx
+    extra = sorted(spec.get("extra") or {})
+    if fields is None:
+        fields = _extra_fields(spec)
+    f = pdbx.CIFFile() if fmt == "cif" else pdbx.BinaryCIFFile()
+    pdbx.set_structure(f, arr, include_bonds=False, extra_fields=extra)
+    buf = io.StringIO() if fmt == "cif" else io.BytesIO()
+    f.write(buf)
+    buf.seek(0)
+    g = (pdbx.CIFFile if fmt == "cif" else pdbx.BinaryCIFFile).read(buf)
+    return pdbx.get_structure(g, extra_fields=fields, include_bonds=True, **read_kw)
 
 
 def _bond_key(kind, spec, b_in, b_out):
@@ -1440,6 +1577,11 @@ def _oracle_struct(case):
         for fmt in FORMATS:
             try:
                 back = _roundtrip(arr, fmt, spec, fields, model=None if spec["stack"] else 1)
+            except Aliased as e:
+                v.append((f"C04/aliasing/set_structure/{str(e).split('.')[-1]}",
+                          f"{fmt}: column {e} of the file changed when the structure was edited in place after set_structure() "
+                          f"(coord layout {spec.get('layout', 'C')}, {len(spec['atoms'])} atom(s))"))
+                continue
             except Exception as e:  # noqa: BLE001
                 if expect and (type(e).__name__ in expect):
                     continue
@@ -1458,6 +1600,19 @@ def _oracle_struct(case):
             v += _compare(spec, arr, back, fmt, spec["stack"], "all")
         if fields != fields_before:
             v.append(("C04/args-mutated/get_structure-extra_fields", f"extra_fields list {fields_before} -> {fields}"))
+        # bonds restored from the component dictionary (file written without chem_comp_bond)
+        if not expect and ccd_fallback_ok(spec):
+            for fmt in ("cif", "bcif"):
+                try:
+                    back = _roundtrip(arr, fmt, spec, fields, write_incl=False, model=None if spec["stack"] else 1)
+                except Exception as e:  # noqa: BLE001
+                    v.append((f"C04/ccd-fallback/error/{type(e).__name__}", f"{fmt}: include_bonds=False/True raised {type(e).__name__}: {str(e)[:120]}"))
+                    continue
+                for key, msg in _compare(spec, arr, back, fmt, spec["stack"], "ccd"):
+                    # only the intra-residue bonds take another path here; the rest is reported by the main check
+                    if key.startswith("C04/bonds/intra/"):
+                        v.append((key.replace("C04/bonds/intra/", "C04/bonds/ccd-fallback/intra/"),
+                                  "written without chem_comp_bond, bonds from the dictionary: " + msg))
         # text == binary (== compressed up to tolerance)
         if "cif" in results and "bcif" in results:
             a, b = results["cif"], results["bcif"]
